@@ -36,6 +36,18 @@ RULE = ("(a) fmatch: 20..80 beads in an orthorhombic box, LAMMPS dump with "
         "(written digits + recorded image numbers) without any image "
         "convention, counter small_box/dihedrals_r13_or_r24_beyond_half_edge; "
         "25 % of the cases of the other families are written wrapped too; "
+        "family irregular-grid (sub-families periodic-dihedral / bond / angle "
+        "/ nonbonded / mixed = periodic dihedral + bond and/or angle and/or "
+        "pair, keys fmatch/irregular-grid/<sub>/...): ~70 % of the fit grids "
+        "have a step that does not divide max - min (periodic dihedrals on "
+        "[-3.141592654, 3.141592654] with steps 0.3 0.25 0.4 0.5 0.7 0.9 1.0 "
+        "1.1 1.3, random 0.3..1.5, rarely 0.1; other kinds max = min + k*step "
+        "+ 0.1..0.9 step), the rest dividing steps; the generating function "
+        "is a periodic resp. natural cubic spline on exactly the nodes min + "
+        "i*step with the last node moved to max (own numpy splines, "
+        "non-uniform spacing), counters irregular_grid/<kind>/<dividing|"
+        "non-dividing> and last_interval_ratio buckets; up to 40 (70) frames "
+        "per block; "
         "20 % of all cases with --trj-force (known forces subtracted, "
         "cg.fmatch.dist set or not), 20 % with junk frames around the used ones "
         "and --first-frame/--nframes, 4 % with frames_per_block larger than "
